@@ -247,6 +247,7 @@ extern "C" int engineexport_initialize_grid (
         {
         mesh_x[i] = (mesh_state[i]>0) ? static_cast<double>(std::poisson_distribution<int>(mesh_state[i])(rng)) : 0.0;
         }
+      mesh_x = SpeciesFirstToMeshFirstArray(mesh_x, n_species, n_meshes);
       }
     else if(CompareStr(init_state_processing, "floor"))
       {
@@ -378,6 +379,7 @@ extern "C" int engineexport_initialize_graph (
         {
         mesh_x[i] = (mesh_state[i]>0) ? static_cast<double>(std::poisson_distribution<int>(mesh_state[i])(rng)) : 0.0;
         }
+      mesh_x = SpeciesFirstToMeshFirstArray(mesh_x, n_species, n_meshes);
       }
     else if(CompareStr(init_state_processing, "floor"))
       {
